@@ -153,6 +153,23 @@ class _ScannerPhases:
 
     async def teardown(self) -> None:
         enter(self, "teardown")
+        sp = _spec(self)
+        if (sp.get("flavour") == "inner-double" and sp.get("point") == "Teardown" and hasattr(self, "ecu")
+                and sp.get("how") in ("ExpConn", "ExpUds")):
+            # the ECU is gone when the run ends: BOTH the final read of the properties and closing the transport
+            # fail inside the base class's teardown (two expected errors, still an expected error)
+            async def lost_props(*_a: Any, **_k: Any) -> Any:
+                if sp["how"] == "ExpUds":
+                    raise UDSException(TesterPresentRequest(suppress_response=False), "injected by C15")
+                raise ConnectionResetError("injected by C15: connection lost")
+
+            async def lost_close(*_a: Any, **_k: Any) -> None:
+                raise ConnectionResetError("injected by C15: connection lost")
+
+            self.ecu.properties = lost_props  # type: ignore[attr-defined,method-assign]
+            self.ecu.transport.close = lost_close  # type: ignore[attr-defined,method-assign]
+            await super().teardown()  # type: ignore[misc]
+            return
         await inject(self, "Teardown", "pre")
         await super().teardown()  # type: ignore[misc]
         await inject(self, "Teardown", "post")
